@@ -268,12 +268,24 @@ package tree
 //@   atcall tree.buildMethodIndexes [C07] present: in(arg0, methodIndexes)
 //@   inv 1 [C04] sum: n.methodIndex == maskOf(visited(1)) && (forall k string :: visited(1)[k] ==> in(k, n.handlers))
 //
+// The exported accessors run after the tree walk released the lock (OPTIONS/405 handlers, CORS): they take the
+// read lock themselves, so the calling goroutine must not hold it (C06).
 //@ fn node.AllowHeader
-//@   requires n != nil
+//@   requires n != nil && n.root != nil
+//@   requires [C06] lock-free: lockFree(n.root)
 //@   nopanic
 //@   ensures [C04] rendered: result == methodIndexes[n.methodIndex].options
+//@   ensures [C06] released: lockFree(n.root)
 //
 //@ fn node.Methods
+//@   requires n != nil && n.root != nil
+//@   requires [C06] lock-free: lockFree(n.root)
+//@   nopanic
+//@   ensures [C04] rendered: result == methodIndexes[n.methodIndex].methods
+//@   ensures [C06] released: lockFree(n.root)
+//
+//@ fn node.methods
+//@   requires [C06] lock: heldR(n)
 //@   requires n != nil
 //@   nopanic
 //@   ensures [C04] rendered: result == methodIndexes[n.methodIndex].methods
